@@ -65,10 +65,11 @@ Proof.
   intros Hw. destruct (plain_first _ Hw) as (c & w' & -> & Hc & Hf).
   destruct (plainc_inv _ Hc) as (H1 & H2 & _). destruct (not_delim_first_op _ H1) as [Hop Hb].
   unfold lex.
-  assert (Hsk : skip_blanks ((c :: w') ++ 32 :: rest) = ([], (c :: w') ++ 32 :: rest)).
-  { cbn [app skip_blanks]. destruct (w' ++ 32 :: rest) eqn:E; [destruct w'; discriminate|].
-    unfold is_lc. rewrite H2, Hb. reflexivity. }
-  rewrite Hsk. cbn [app]. rewrite Hf, Hop.
+  apply orb_false_iff in Hf. destruct Hf as [Hf35 Hf126].
+  assert (Hsk : skip_gap ((c :: w') ++ 32 :: rest) = ([], (c :: w') ++ 32 :: rest)).
+  { unfold skip_gap. cbn [app skip_blanks]. destruct (w' ++ 32 :: rest) eqn:E; [destruct w'; discriminate|].
+    unfold is_lc. rewrite H2, Hb. cbn [andb]. rewrite Hf35. reflexivity. }
+  rewrite Hsk. cbn [app]. rewrite Hf126, Hop.
   change (c :: w' ++ 32 :: rest) with ((c :: w') ++ 32 :: rest).
   rewrite (word_body_plain (c :: w')); [| rewrite app_length; cbn; lia | exact (pw_chars _ Hw) | reflexivity].
   cbn [w_lit w_assign w_units w0 fst snd]. rewrite app_nil_r, rev_involutive.
@@ -86,16 +87,25 @@ Proof.
   - unfold is_lc at 1. rewrite H92, Hb. cbn [andb]. destruct (skip_blanks (d :: r2)). reflexivity.
 Qed.
 
+Lemma skip_gap_blank b l : is_blank b = true ->
+  skip_gap (b :: l) = (false :: fst (skip_gap l), snd (skip_gap l)).
+Proof.
+  intros Hb. unfold skip_gap. rewrite (skip_blanks_blank _ _ Hb).
+  destruct (skip_blanks l) as [gm l1]. cbn [fst snd].
+  destruct l1 as [|c r]; [reflexivity|]. destruct (c =? 35); [|reflexivity].
+  destruct (skip_comment (c :: r)). reflexivity.
+Qed.
+
 Definition add_gap (lx : lexed) : lexed :=
   mkLexed (false :: lx_gap lx) (lx_tok lx) (lx_kind lx) (lx_lit lx) (lx_assign lx).
 
 Lemma lex_blank b l : is_blank b = true ->
   lex (b :: l) = match lex l with inl lx => inl (add_gap lx) | inr e => inr e end.
 Proof.
-  intros Hb. unfold lex. rewrite (skip_blanks_blank _ _ Hb).
-  destruct (skip_blanks l) as [gm l1]. cbn [fst snd].
+  intros Hb. unfold lex. rewrite (skip_gap_blank _ _ Hb).
+  destruct (skip_gap l) as [gm l1]. cbn [fst snd].
   destruct l1 as [|c r]; [reflexivity|].
-  destruct ((c =? 35) || (c =? 126)); [reflexivity|].
+  destruct (c =? 126); [reflexivity|].
   destruct (first_op c).
   - destruct (op_tail 3 o r) as [[o' m] rr]. reflexivity.
   - destruct (word_body (S (length (c :: r))) (c :: r) w0) as [[[m rest] w]|]; [|reflexivity].
